@@ -25,6 +25,7 @@ use std::collections::VecDeque;
 pub fn register(v: &mut Vec<Box<dyn Family>>) {
     v.push(Box::new(Dyn { w: RefCell::new(None), plan: RefCell::new(VecDeque::new()), exhaustive: false }));
     v.push(Box::new(Dyn { w: RefCell::new(None), plan: RefCell::new(VecDeque::new()), exhaustive: true }));
+    v.push(Box::new(POff));
 }
 
 const DYN_MAX: usize = 8 + 4 + 32 + 16 + 113 * 88;
@@ -494,6 +495,61 @@ impl Family for Dyn {
                 }
             }
             _ => "bad-op".to_string(),
+        }
+    }
+}
+
+/// `poff <start> <tick> <ts>`: the Pinocchio division-free `check_is_usable_tick_and_get_offset`
+/// against the Anchor bounds check + usable check + division (C12).
+struct POff;
+impl Family for POff {
+    fn name(&self) -> &'static str {
+        "poff"
+    }
+    fn gen(&self, r: &mut Rng, _idx: u64) -> String {
+        let ts = if r.chance(2, 3) { r.pick(&[1u16, 2, 3, 8, 64, 96, 128, 256]) } else { r.tick_spacing() };
+        let mut start = pick_start(r, ts);
+        if r.chance(1, 12) {
+            start += r.range_i(-3, 3) as i32; // an invalid start index (never initialized on chain)
+        }
+        let span = 88 * ts as i64;
+        let tick = match r.below(12) {
+            0 => start as i64 - 1,
+            1 => start as i64 + span,
+            2 => start as i64 + span - 1,
+            3 => start as i64,
+            4 => r.pick(&[MIN_TICK, MAX_TICK, MIN_TICK - 1, MAX_TICK + 1, MIN_TICK + 1]) as i64,
+            5 | 6 => start as i64 + r.range_i(-(ts as i64), span + ts as i64),
+            _ => start as i64 + (r.below(88) as i64) * ts as i64 + if r.chance(1, 5) { r.range_i(-1, 1) } else { 0 },
+        };
+        format!("poff {} {} {}", start, tick.clamp(i32::MIN as i64 / 2, i32::MAX as i64 / 2), ts)
+    }
+    fn run(&self, line: &str, ctx: &mut Ctx) -> String {
+        let t = toks(line);
+        let start: i32 = t[1].parse().unwrap();
+        let tick: i32 = t[2].parse().unwrap();
+        let ts: u16 = t[3].parse().unwrap();
+        let mut pf = new_fixed(start);
+        let got = p_fix(&mut pf).check_is_usable_tick_and_get_offset(tick, ts);
+        // the Anchor way
+        let mut af = new_fixed(start);
+        let a = a_fix(&mut af);
+        let want = if a.check_in_array_bounds(tick, ts) && Tick::check_is_usable_tick(tick, ts) { a.tick_offset(tick, ts).ok().map(|o| o as usize) } else { None };
+        let valid_start = Tick::check_is_valid_start_tick(start, ts);
+        if valid_start {
+            if got != want {
+                ctx.viol(format!("C12 tick offset: Pinocchio check_is_usable_tick_and_get_offset({}, {}) on the array at {} gives {:?}, the Anchor checks and division give {:?}", tick, ts, start, got, want));
+            }
+            ctx.tag(if got.is_some() { "usable" } else { "rejected" });
+            if got.is_some() {
+                ctx.nontrivial(line);
+            }
+        } else {
+            ctx.tag(if got == want { "invalid-start-agree" } else { "invalid-start-differ" });
+        }
+        match got {
+            Some(k) => format!("ok {}", k),
+            None => "ok none".to_string(),
         }
     }
 }
